@@ -198,12 +198,20 @@ class LoopsMixin:
             else:
                 raise Unsupported("comprehension consumer %s" % consumer)
 
-    def _eval_pointwise(self, ex, p, nodes, bind):
-        """Evaluate expression nodes for an arbitrary element (bound index) on a scratch fork.
-        Returns (list of (delta_cond, [values])), list of (delta_cond, exc))."""
+    def _eval_pointwise(self, ex, p, nodes, bind, ivar=None):
+        """Evaluate expression nodes for an arbitrary element (bound index `ivar`) on a scratch fork.
+        Returns (list of (case_cond, [values])), list of (case_cond, exc)).
+
+        Path-condition entries added during the evaluation are either branch decisions (they form the case condition)
+        or facts (postconditions of contracts applied inside the element expression). Symbols created fresh during the
+        evaluation (e.g. a callee's result) denote a different value for every element: they are skolemised as
+        functions of the bound index, and the facts are assumed on the main path for every index of the case."""
         q = p.fork()
         base = len(q.pc)
+        cnt0 = V._cnt[0]
         bind(q)
+        for c in q.pc[base:]:
+            q.branch_ids.add(c.get_id())          # the range condition is part of every case
         saved = ex._raises
         ex._raises = []
         try:
@@ -211,6 +219,54 @@ class LoopsMixin:
             raises = ex._raises
         finally:
             ex._raises = saved
+        sub_cache = {}
+
+        def fresh_consts(terms):
+            out, seen, todo = {}, set(), list(terms)
+            while todo:
+                x = todo.pop()
+                k = x.get_id()
+                if k in seen:
+                    continue
+                seen.add(k)
+                if z3.is_quantifier(x):
+                    todo.append(x.body())
+                    continue
+                if z3.is_const(x) and x.decl().kind() == z3.Z3_OP_UNINTERPRETED:
+                    nm = x.decl().name()
+                    if "!" in nm:
+                        try:
+                            n = int(nm.rsplit("!", 1)[1])
+                        except ValueError:
+                            n = -1
+                        if n > cnt0 and (ivar is None or x.get_id() != ivar.get_id()):
+                            out[nm] = x
+                elif z3.is_app(x):
+                    todo.extend(x.children())
+            return out
+
+        def skolemise(terms, vals):
+            """replace symbols created during the element evaluation by functions of the bound index"""
+            if ivar is None:
+                return terms, vals
+            all_terms = list(terms)
+            for v in vals:
+                try:
+                    all_terms.append(term_of(v) if not isinstance(v, VTuple) else box(v))
+                except Exception:
+                    pass
+            fc = fresh_consts(all_terms)
+            if not fc:
+                return terms, vals
+            pairs = []
+            for nm, c in fc.items():
+                if nm not in sub_cache:
+                    sub_cache[nm] = z3.Function("sk_" + nm, IntS, c.sort())(ivar)
+                pairs.append((c, sub_cache[nm]))
+            terms2 = [z3.substitute(t, *pairs) for t in terms]
+            vals2 = [subst_sv(v, pairs) for v in vals]
+            return terms2, vals2
+
         normals = []
         for r, vs in res:
             if r.heap != p.heap or r.sigma != p.sigma:
@@ -219,11 +275,29 @@ class LoopsMixin:
                 if not same:
                     raise Unsupported("side effect inside comprehension element")
             d = r.pc[base:]
-            normals.append((z3.And(*d) if d else z3.BoolVal(True), vs))
+            vs = [ex.deref(r, v) for v in vs]
+            d2, vs2 = skolemise(d, vs)
+            conds = []
+            for c, c2 in zip(d, d2):
+                if c.get_id() in r.branch_ids:
+                    conds.append(c2)
+                    continue
+                # a fact holds under the branch decisions taken BEFORE it was established
+                guard = z3.And(*conds) if conds else z3.BoolVal(True)
+                if ivar is not None:
+                    p.assume(z3.ForAll([ivar], z3.Implies(guard, c2)))
+                else:
+                    p.assume(z3.Implies(guard, c2))
+            case = z3.And(*conds) if conds else z3.BoolVal(True)
+            normals.append((case, vs2))
         excs = []
         for r, e in raises:
             d = r.pc[base:]
-            excs.append((z3.And(*d) if d else z3.BoolVal(True), e))
+            d2, _ = skolemise(d, [])
+            conds = [c2 for c, c2 in zip(d, d2) if c.get_id() in r.branch_ids]
+            facts = [c2 for c, c2 in zip(d, d2) if c.get_id() not in r.branch_ids]
+            # facts on a raising case stay inside its condition (existentially read by the caller)
+            excs.append((z3.And(*(conds + facts)) if (conds or facts) else z3.BoolVal(True), e))
         return normals, excs
 
     def _merge(self, cases):
@@ -244,7 +318,7 @@ class LoopsMixin:
         nodes = list(ifs) + [elt]
         ex.bound_vars.append(i)
         try:
-            normals, excs = self._eval_pointwise(ex, p, nodes, bind)
+            normals, excs = self._eval_pointwise(ex, p, nodes, bind, i)
         finally:
             ex.bound_vars.pop()
         # exceptions raised by some element
